@@ -473,12 +473,13 @@ type SpecDB struct {
 	Ghosts     map[string]*GhostField // key "Type.name" (Type qualified pkgpath.Type)
 	Sorts      map[string]bool
 	ConstGlobs map[string]bool // pkg.name
+	Sentinels  map[string]bool
 	Files      []string
 }
 
 func NewSpecDB() *SpecDB {
 	return &SpecDB{Contracts: map[string]*Contract{}, IfaceMeths: map[string]*Contract{}, FuncTypes: map[string]*Contract{},
-		Pures: map[string]*PureFunc{}, Preds: map[string]*Pred{}, Ghosts: map[string]*GhostField{}, Sorts: map[string]bool{}, ConstGlobs: map[string]bool{}}
+		Pures: map[string]*PureFunc{}, Preds: map[string]*Pred{}, Ghosts: map[string]*GhostField{}, Sorts: map[string]bool{}, ConstGlobs: map[string]bool{}, Sentinels: map[string]bool{}}
 }
 
 func normSpace(s string) string { return strings.Join(strings.Fields(s), " ") }
@@ -553,7 +554,7 @@ func (db *SpecDB) ParseSpecFile(path, pkgPath string, trusted bool) error {
 		word, rest := splitWord(l)
 		isHeader := false
 		switch word {
-		case "package", "func", "interface", "functype", "pure", "pred", "axiom", "lemma", "ghost", "sort", "constglobal",
+		case "package", "func", "interface", "functype", "pure", "pred", "axiom", "lemma", "ghost", "sort", "constglobal", "sentinel",
 			"requires", "ensures", "assigns", "decreases", "loop", "after", "before", "returns", "inline", "abstracted", "bitprecise", "nooverflow", "panics-if", "trusted", "noalloc", "prune", "maxpaths", "timeout", "noinline", "nosafety":
 			isHeader = true
 		}
@@ -594,6 +595,10 @@ func (db *SpecDB) ParseSpecFile(path, pkgPath string, trusted bool) error {
 			db.Sorts[rest] = true
 		case "constglobal":
 			db.ConstGlobs[pkgPath+"."+rest] = true
+		case "sentinel":
+			// sentinel <var>: a package-level error variable created once by errors.New and never reassigned:
+			// non-nil, pointer-shaped (so == is identity)
+			db.Sentinels[pkgPath+"."+rest] = true
 		case "func":
 			cur = &Contract{Pkg: pkgPath, Kind: "func", Flags: map[string]bool{}, FlagArgs: map[string]string{}, File: path, Line: ln + 1, Trusted: trusted}
 			parseFuncHeader(cur, rest)
